@@ -628,6 +628,12 @@ class C01(WorkerProp):
                 fs = "srv/%s=gen:%d:%d,srv/%s=gen:%d:%d" % (spec, 31 + k, 5 + k, other, 37 + k, 120 + k)
                 for flags in ["-", "s"]:
                     L.append("req %s %s %s %s" % (root, flags, fs, rq("rrq", asked.encode(), rng.choice([(), (("blksize", 8),), (("tsize", 0),)])).hex()))
+        # block sizes that divide no power of two, files longer than any plausible read buffer (8 KiB, 64 KiB): a short read from a buffer's
+        # remainder is not the end of the file
+        for (b, w, n) in [(1000, 2, 20000), (1428, 3, 20000), (9, 4, 9000), (1468, 1, 70000)]:
+            nb = n // b + 1
+            acks = " ".join("A%d@0" % (k % 65536) for k in list(range(w, nb, w)) + [nb])
+            L.append("snd %d %d 5000 1 0 gen:%d:%d %s" % (b, w, n, b % 251, acks))
         # files of 4 GiB and more (sparse: they cost nothing): the first window of the download carries full blocks of the file's first bytes,
         # whatever the length is modulo 2^32 (the model cannot hold such a file: implementation-side statement only)
         for j, n in enumerate([2 ** 32, 2 ** 32 + 1000, 2 ** 32 + 512, 2 ** 33 + 5, 2 ** 32 - 1]):
@@ -819,6 +825,12 @@ class C02(WorkerProp):
                 for sched in ["0101010101", "0011001100", "0100000000", "0010000000"] if tier == "thorough" else [rng.choice(["0101010101", "0010000000"]), "0100000000"]:
                     second = rng.choice(["u:up2:%d:1:gen:%d:3" % (b2, 3 * b2 + 5), "d:c:%d:1" % b2])
                     L.append("multi %s %s srv/c=gen:16:3 %s u:up1:%d:1:gen:%d:7 %s" % (root, flags, sched, b1, 2 * b1 + 100, second))
+        # through the server: datagrams from the uploading endpoint itself that are no TFTP packets but look like the next DATA block apart
+        # from the high byte of the opcode never reach the file (the worker's own socket in multi-port mode, the listener in single-port mode)
+        root = (self.sandbox + "/k1").encode().hex()
+        for flags in ["-", "s", "1"]:
+            for spec in ["V:up1:8:1:gen:30:1", "V:up1:512:2:gen:2100:8", "V:up1:16:3:gen:100:4"]:
+                L.append("multi %s %s srv/c=gen:16:3 %s %s d:c:8:1" % (root, flags, rng.choice(["0", "01", "0011"]), spec))
         # through the server: what the write request declares (tsize larger / smaller / equal / absurd, other options) has no bearing on what
         # is stored: the bytes that were sent and acknowledged
         from .p_server import rq, upload_plan
